@@ -147,20 +147,44 @@ def run(chk, replay=None):
             p, m = rng.sample(nodes, 2)
             if rng.random() < 0.5 and '0' in nodes and p != '0':
                 m = '0'
-            th = cct.thevenin(p, m)
-            no = cct.norton(p, m)
-            Voc = src(th.Voc)
-            Z = imm(th.Z)
-            Isc = src(no.Isc)
-            Y = imm(no.Y)
         except Exception as e:   # noqa
             chk.count('lcapy-error', kind + ':' + type(e).__name__ + ':' + str(e)[:40])
             chk.case(('err', text), False)
             return
-        if None in (Voc, Z, Isc, Y):
-            chk.count('lcapy', 'non-rational-sample' if kind in ('s', 'ivp') else 'immittance-undefined-at-the-point:' + kind)
+        # the two models are requested separately: across a voltage source (Z = 0) only the Thevenin model exists, across
+        # an open pair (Y = 0) only the Norton model; whatever exists is checked
+        th = no = Voc = Z = Isc = Y = None
+        try:
+            th = cct.thevenin(p, m)
+            Voc, Z = src(th.Voc), imm(th.Z)
+        except Exception as e:   # noqa
+            chk.count('lcapy-error', kind + ':thevenin:' + type(e).__name__ + ':' + str(e)[:30])
+            th = None
+        try:
+            no = cct.norton(p, m)
+            Isc, Y = src(no.Isc), imm(no.Y)
+        except Exception as e:   # noqa
+            chk.count('lcapy-error', kind + ':norton:' + type(e).__name__ + ':' + str(e)[:30])
+            no = None
+        if th is not None and None in (Voc, Z):
+            chk.count('lcapy', 'thevenin-undefined-at-the-point:' + kind)
+            th = None
+        if no is not None and None in (Isc, Y):
+            chk.count('lcapy', 'norton-undefined-at-the-point:' + kind)
+            no = None
+        if th is None and no is None:
             chk.case(('nr', text), False)
             return
+        if th is None:
+            # the Thevenin quantities from the Norton ones when Y != 0 (they are compared with the model and the probes below)
+            if Y == (0, 0):
+                chk.count('lcapy', 'only-norton-with-Y=0')
+                chk.case(('nr', text), False)
+                return
+            d_ = Y[0] * Y[0] + Y[1] * Y[1]
+            Z = (Y[0] / d_, -Y[1] / d_)
+            Voc = cmul(Isc, Z)
+        chk.count('models', ('thevenin' if th is not None else '') + ('+' if th is not None and no is not None else '') + ('norton' if no is not None else ''))
         chk.count('analysis', kind + ('+ics' if has_ic else ''))
         chk.count('port', 'grounded' if m == '0' or p == '0' else 'floating')
         nontriv = Z != (0, 0)
@@ -168,17 +192,19 @@ def run(chk, replay=None):
         chk.sample({'netlist': case['lcapy'], 'port': [p, m], 'analysis': an_tok})
         key_in = {'netlist': case['lcapy'], 'port': [p, m], 'analysis': an_tok, 's': fstr(sp), 'subs': {q: fstr(v) for q, v in subs.items()}}
         ktag = {} if kind in ('s', 'ivp') else {'analysis': kind}
+        both = th is not None and no is not None
 
         # (a) Thevenin <-> Norton consistency
-        chk.count('oracle', 'voc=isc*z')
-        if cmul(Isc, Z) != Voc or (nontriv and cmul(Z, Y) != (1, 0)):
+        if both:
+            chk.count('oracle', 'voc=isc*z')
+        if both and (cmul(Isc, Z) != Voc or (nontriv and cmul(Z, Y) != (1, 0))):
             n_cex += 1
             chk.counterexample(dict({'kind': 'thevenin-norton-consistency'}, **ktag),
                                {'input': key_in, 'lcapy': {'Voc': str(Voc), 'Z': str(Z), 'Isc': str(Isc), 'Y': str(Y)},
                                 'spec': 'Voc = Isc Z and Z Y = 1'}, 'Thevenin and Norton models are not equivalent')
         # (a') Voc = Isc Z also holds for the models reported under the other documented current sign conventions
         #      (hybrid, active): the property does not restrict the configuration
-        if conv_budget[0] > 0 and kind in ('s', 'ivp'):
+        if both and conv_budget[0] > 0 and kind in ('s', 'ivp'):
             conv_budget[0] -= 1
             for cv in ('hybrid', 'active'):
                 try:
@@ -280,8 +306,8 @@ def run(chk, replay=None):
                 chk.count('load', ld + ':' + kind)
                 c3 = lcapy.Circuit(text + '\n' + '\n'.join(lines_l))
                 v_orig = src(c3[p].V - c3[m].V)
-                v_th = src((th | op).cct[1].V)
-                v_no = src((no | op).cct[1].V)
+                v_th = src((th | op).cct[1].V) if th is not None else v_orig
+                v_no = src((no | op).cct[1].V) if no is not None else v_orig
                 chk.count('oracle', 'load-invariance')
                 if None not in (v_orig, v_th, v_no) and not (v_orig == v_th == v_no):
                     n_cex += 1
@@ -343,9 +369,9 @@ def run(chk, replay=None):
                 chk.coverage['correspondence']['compared'] += 1
                 chk.count('model', 'voc-and-z-compared:' + kind)
                 bad = mVoc != Voc or mZ != Z
-                if reps['isc'].startswith('ok') and norm(reps['isc'].split()[1]) != Isc:
+                if no is not None and reps['isc'].startswith('ok') and norm(reps['isc'].split()[1]) != Isc:
                     bad = True
-                if reps['admittance'].startswith('ok') and nontriv and norm(reps['admittance'].split()[1]) != Y:
+                if no is not None and reps['admittance'].startswith('ok') and nontriv and norm(reps['admittance'].split()[1]) != Y:
                     bad = True
                 if gfree_of(case, an_tok) and reps['impedance@' + g2].startswith('ok') and norm(reps['impedance@' + g2].split()[1]) != mZ:
                     bad = True
